@@ -353,14 +353,33 @@ def run(ctx):
                 else:
                     pairs.append((t, s2.value))
             for t, v in pairs:
-                if isinstance(t, ast.Attribute) and t.attr.lstrip('_') in hdrnames and isinstance(v, ast.Subscript) and const_str(v.slice) in hdrnames:
+                keys_ = [const_str(x.slice) for x in ast.walk(v) if isinstance(x, ast.Subscript) and const_str(x.slice) in hdrnames] if isinstance(v, ast.Subscript) else []
+                if isinstance(t, ast.Attribute) and t.attr.lstrip('_') in hdrnames and len(keys_) == 1:
                     npair += 1
-                    if const_str(v.slice) == t.attr.lstrip('_'):
-                        ctx.ok('R-TAUPAIR', '%s:%s' % (q_, norm(t)), 'src/PseudoNetCDF/%s %s' % (NB, q_), "<- ['%s']" % const_str(v.slice))
+                    if keys_[0] == t.attr.lstrip('_'):
+                        ctx.ok('R-TAUPAIR', '%s:%s' % (q_, norm(t)), 'src/PseudoNetCDF/%s %s' % (NB, q_), "<- ['%s']" % keys_[0])
                     else:
-                        ctx.violation(Finding('R-TAUPAIR', NB, q_, s2, "%s is read from header field '%s': the block's %s is lost (time bounds / ids of the second reader differ from "
-                                              'the first reader\'s)' % (norm(t), const_str(v.slice), t.attr.lstrip('_'))))
+                        ctx.violation(Finding('R-TAUPAIR', NB, q_, s2, "%s is read from header field '%s': the block's %s is lost (grid/time description of the second reader differs from "
+                                              'the first reader\'s)' % (norm(t), keys_[0], t.attr.lstrip('_'))))
     ctx.floor('attribute <- header field pairs in the second reader', npair, 2)
+    # ---- R-PAIRCOLS: two per-block vectors become (block, 2) pairs by transposition, never by a row-major reshape
+    ctx.rule('R-PAIRCOLS', 'first reader: [tau0, tau1] vectors are paired per block with .T / column_stack (reshape(-1, 2) interleaves them)')
+    tl = bm.func('_tracer_lookup.__missing__')
+    npc = 0
+    for c in ast.walk(tl):
+        if isinstance(c, ast.Call) and (dotted(c.func) or '').split('.')[-1] == 'array' and c.args and isinstance(c.args[0], ast.List) and len(c.args[0].elts) == 2 \
+                and all("'tau" in norm(x) for x in c.args[0].elts):
+            npc += 1
+            par = getattr(c, '_parent', None)
+            gp = getattr(par, '_parent', None)
+            if isinstance(par, ast.Attribute) and par.attr == 'T':
+                ctx.ok('R-PAIRCOLS', norm(c)[:40], 'src/PseudoNetCDF/%s _tracer_lookup.__missing__' % B, 'paired by .T')
+            elif isinstance(par, ast.Attribute) and par.attr in ('reshape', 'ravel', 'resize') and isinstance(gp, ast.Call):
+                ctx.violation(Finding('R-PAIRCOLS', B, '_tracer_lookup.__missing__', api.stmt_of(c), 'the (2, n) table of begin and end times is turned into pairs with %s: for more than one time block the rows are '
+                                      '[tau0[0], tau0[1]], [tau0[2], tau1[0]], ... instead of [tau0[i], tau1[i]]' % norm(gp)[-20:]))
+            else:
+                ctx.undec('R-PAIRCOLS', norm(c)[:40], 'src/PseudoNetCDF/%s _tracer_lookup.__missing__' % B, 'pairing idiom not recognised')
+    ctx.floor('tau pair tables', npc, 1)
     # ---- shared pads + API
     c09.check_bpch_pads(ctx)
     nf = 0
